@@ -7,7 +7,7 @@
 From Coq Require Import NArith List Bool Arith String.
 From DBG Require Import Gen.SourceConsts Spec.Dna Spec.GraphIndex Spec.ExportSpec Packed.DnaStringModel
   Algo.GraphModel Algo.Json Algo.Export Algo.Serde Check.ExportCheck
-  Proofs.JsonProofs Proofs.ExportJsonProofs Proofs.ExportGfaProofs Proofs.ExportProofs Proofs.ExportCheckProofs
+  Proofs.JsonProofs Proofs.ExportJsonProofs Proofs.ExportGfaProofs Proofs.ExportProofs Proofs.ExportEdgesProofs Proofs.ExportCheckProofs
   Proofs.ExportRefuted Proofs.SerdeProofs.
 Import ListNotations.
 Local Open Scope nat_scope.
@@ -53,6 +53,25 @@ Theorem C20_gfa_links_complete_once : forall (D : Type) (K : nat) (stranded : bo
   once_or_twice (pal_node D K stranded g) (gfa_links (write_gfa D K stranded g)) (u, a) (v, b).
 Proof. exact gfa_links_complete_once. Qed.
 Print Assumptions C20_gfa_links_complete_once.
+
+(* Two of the three clauses of the hypothesis hold for every graph whose node sequences are well-formed DNA of at
+   least K bases (proved from the sequences, through the end-index contract of find_link): *)
+Theorem C20_edges_distinct : forall (D : Type) (K : nat) (stranded : bool) (g : graph D),
+  graph_wf D K g -> tab_distinct (pal_node D K stranded g) (etab_of D K stranded g).
+Proof. exact edges_distinct. Qed.
+Print Assumptions C20_edges_distinct.
+Theorem C20_edges_pal_no_self : forall (D : Type) (K : nat) (stranded : bool) (g : graph D),
+  1 <= K -> graph_wf D K g -> tab_pal_no_self (pal_node D K stranded g) (etab_of D K stranded g).
+Proof. exact edges_pal_no_self. Qed.
+Print Assumptions C20_edges_pal_no_self.
+
+(* so that, for such graphs, edge symmetry is the only hypothesis (the form stated in the property) *)
+Theorem C20_gfa_links_complete_once_sym : forall (D : Type) (K : nat) (stranded : bool) (g : graph D),
+  1 <= K -> graph_wf D K g -> tab_symmetric (pal_node D K stranded g) (etab_of D K stranded g) ->
+  forall u a es v b flip, find_edges D K stranded g u a = Some es -> In (v, b, flip) es ->
+  once_or_twice (pal_node D K stranded g) (gfa_links (write_gfa D K stranded g)) (u, a) (v, b).
+Proof. exact gfa_links_complete_once_sym. Qed.
+Print Assumptions C20_gfa_links_complete_once_sym.
 
 (* the same on any edge table: what the checkers run on the implementation's lines decide *)
 Theorem C20_links_of_tab_complete_once : forall K pal E,
